@@ -469,6 +469,20 @@ func scopeIndex(scope, root *types.Scope, id string) (string, bool) {
 	return scopeIndex(parent, root, id)
 }
 
+// LocalScopeIndices returns the scope indices of a function-local object
+// (the suffix TypeName appends to the descriptor name of a local type) and
+// "" for package-level objects and objects without a resolvable scope.
+func LocalScopeIndices(obj types.Object) string {
+	pkg := obj.Pkg()
+	if pkg == nil || obj.Parent() == nil || obj.Parent() == pkg.Scope() {
+		return ""
+	}
+	if ids, ok := scopeIndex(obj.Parent(), pkg.Scope(), ""); ok {
+		return ids
+	}
+	return ""
+}
+
 func scopeIndices(obj types.Object) string {
 	pkg := obj.Pkg()
 	if pkg == nil {
